@@ -5,6 +5,7 @@ import (
 	"go/token"
 	"go/types"
 	"sort"
+	"strconv"
 	"strings"
 
 	"golang.org/x/tools/go/ssa"
@@ -783,6 +784,18 @@ func (ex *Exec) doAppend(fr *Frame, st *State, c *ssa.CallCommon, args []SVal, p
 		sLen(s), nt, old, sArr(s), sOff(s), pat)))
 	st.assume(implies(not(inPlace), fmt.Sprintf("(forall ((i Int)) (! (=> (and (<= %s i) (< i %s)) (= (select %s i) (select (select %s %s) (+ %s (- i %s))))) %s))",
 		sLen(s), newLen, nt, old, sArr(t), sOff(t), sLen(s), pat)))
+	// the kept prefix in relative form (both cases at once): res[j] == s[j] - a consequence of the facts above whose
+	// pattern is the idx() form contracts use for elements of the new slice
+	st.assume(fmt.Sprintf("(forall ((j Int)) (! (=> (and (<= 0 j) (< j %s)) (= (select %s (idx %s j)) (select (select %s %s) (idx %s j)))) :pattern ((select %s (idx %s j)))))",
+		sLen(s), nt, sOff(res), old, sArr(s), sOff(s), nt, sOff(res)))
+	// a small constant number of appended elements: the ground instances of the window facts, written with idx() so that
+	// contract triggers over the new slice find them
+	if k, err := strconv.Atoi(n); err == nil && k >= 1 && k <= 4 {
+		for j := 0; j < k; j++ {
+			js := strconv.Itoa(j)
+			st.assume(eq(sel(nt, idxT(sOff(res), add(sLen(s), js))), sel(sel(old, sArr(t)), idxT(sOff(t), js))))
+		}
+	}
 	return SVal{T: res}
 }
 
